@@ -61,10 +61,23 @@ type cfg struct {
 	respLen int
 	k       int
 	p, d    int
+	// twoWrites: the handler declares Content-Length and writes a small piece, then the rest
+	// (exercises the identity-framed coalescing paths); realPool: a real recycling mempool
+	// (fresh per execution) instead of the tracking allocator, so that an ownership bug shows
+	// as what it causes in production: bytes of one connection's response on another
+	twoWrites bool
+	realPool  bool
 }
 
 func (c cfg) name() string {
-	return fmt.Sprintf("%s exec=%s hist=%v cut=%d resp=%d K=%d", c.mode, c.exec, c.hist, c.cut, c.respLen, c.k)
+	x := ""
+	if c.twoWrites {
+		x += " two-writes"
+	}
+	if c.realPool {
+		x += " real-pool"
+	}
+	return fmt.Sprintf("%s exec=%s hist=%v cut=%d resp=%d K=%d%s", c.mode, c.exec, c.hist, c.cut, c.respLen, c.k, x)
 }
 
 func encode(connID int, rs []req) []byte {
@@ -111,16 +124,28 @@ func body(c cfg) func() {
 		tr := track.New(track.Pooled)
 		// every pooled buffer of this execution comes from its own tracking allocator: ownership
 		// bugs (C11) must not alias buffers between unrelated parts of this check
-		mempool.DefaultMemPool = tr
+		var alloc mempool.Allocator = tr
+		if c.realPool {
+			alloc = mempool.New(1024, 1024*1024*1024)
+		}
+		mempool.DefaultMemPool = alloc
 		conf := nbhttp.Config{
 			Name: "c10", NPoller: 1, ReadBufferSize: 4096, KeepaliveTime: time.Hour,
-			BodyAllocator: tr, SupportServerOnly: true,
+			BodyAllocator: alloc, SupportServerOnly: true,
 			Handler: http.HandlerFunc(func(w http.ResponseWriter, r *http.Request) {
 				rb, _ := io.ReadAll(r.Body)
 				tag := r.Header.Get("X-Tag")
 				w.Header().Set("X-Tag", tag)
+				body := wantBody(tag, rb, c.respLen)
+				if c.twoWrites && len(body) > 100 {
+					w.Header().Set("Content-Length", fmt.Sprint(len(body)))
+					_, _ = w.Write(body[:100])
+					vsched.Point() // another connection's handler may run between the two writes
+					_, _ = w.Write(body[100:])
+					return
+				}
 				vsched.Point()
-				_, _ = w.Write(wantBody(tag, rb, c.respLen))
+				_, _ = w.Write(body)
 			}),
 		}
 		switch c.mode {
@@ -351,6 +376,28 @@ func build(tier string) []*vkit.Scenario {
 			}
 		}
 	}
+	// identity-framed two-piece responses on two connections over a real recycling pool
+	for _, m := range ekit.Modes {
+		for _, rl := range []int{70000, 65636} {
+			p := 1
+			if thorough {
+				p = 2
+			}
+			if thorough || (m == ekit.LT && rl == 70000) {
+				add(cfg{mode: m, exec: "go", hist: [][]req{{ka}, {ka}}, respLen: rl, k: 1 << 20, p: p, twoWrites: true, realPool: true})
+				add(cfg{mode: m, exec: "go", hist: [][]req{{ka, ka}}, respLen: rl, k: 1 << 20, p: p, twoWrites: true, realPool: true})
+			}
+			// a second round of requests: buffers released (twice?) by the first round are reused
+			if thorough || (m == ekit.ET && rl == 65636) {
+				out = append(out, nil)
+				add(cfg{mode: m, exec: "go", hist: [][]req{{ka, ka}, {ka, ka}}, respLen: rl, k: 1 << 20, p: 1, twoWrites: true, realPool: true})
+				out[len(out)-2] = out[len(out)-1]
+				out = out[:len(out)-1]
+				out[len(out)-1].Budget = 3 * time.Minute
+			}
+			add(cfg{mode: m, exec: "go", hist: [][]req{{ka}}, respLen: rl, k: 1 << 20, p: p, twoWrites: true})
+		}
+	}
 	// HTTP client: pipelined Do calls against a scripted server
 	for _, m := range ekit.Modes {
 		for _, cc := range []ccfg{
@@ -358,6 +405,7 @@ func build(tier string) []*vkit.Scenario {
 			{n: 2, answers: 1, then: "close"}, {n: 2, answers: 0, then: "close"}, {n: 3, answers: 1, then: "close", threads: 2},
 			{n: 2, answers: 1, then: "silent", timeout: true}, {n: 1, answers: 0, then: "silent", timeout: true},
 			{n: 2, answers: 2, then: "none", timeout: true},
+			{n: 1, answers: 1, then: "none", dialFail: true}, {n: 2, answers: 2, then: "none", dialFail: true},
 		} {
 			cc.mode = m
 			if cc.threads == 0 {
